@@ -221,10 +221,29 @@ theorem ownerU_eq_none_of_forall {recs : List Record} {k : Str} (h : ∀ x ∈ r
   intro x hx
   simpa using h x hx
 
+/-- the registered pattern depends only on the `(canonical prefix, pattern)` projection -/
+theorem patternOf_eq_map (l : List Record) (p : Str) :
+    patternOf l p = ((l.map fun r => (r.pfx, r.truePattern)).find? (fun kv => kv.1 == p)).bind (·.2) := by
+  unfold patternOf
+  induction l with
+  | nil => rfl
+  | cons a as ih =>
+    simp only [List.map_cons, List.find?_cons]
+    cases (a.pfx == p) with
+    | true => rfl
+    | false => exact ih
+
+theorem patternOf_congr {l₁ l₂ : List Record}
+    (h : l₁.map (fun r => (r.pfx, r.truePattern)) = l₂.map (fun r => (r.pfx, r.truePattern))) (p : Str) :
+    patternOf l₁ p = patternOf l₂ p := by
+  rw [patternOf_eq_map, patternOf_eq_map, h]
+
 theorem mirror_indexRec {c : Conv} (hm : Mirror c) (new : List Record) (r : Record) (hu : Unique new)
     (hr : r ∈ new)
     (hP : ∀ k, k ∉ r.allP → ownerP new k = ownerP c.records k)
-    (hU : ∀ k, k ∉ r.allU → ownerU new k = ownerU c.records k) :
+    (hU : ∀ k, k ∉ r.allU → ownerU new k = ownerU c.records k)
+    (hQ : ∀ p, p ≠ r.pfx → patternOf new p = patternOf c.records p)
+    (hO : ∀ x, c.records.find? (fun y => y.pfx == r.pfx) = some x → x.truePattern = r.truePattern) :
     Mirror (Conv.indexRec { c with records := new } r) := by
   constructor
   · intro p
@@ -259,6 +278,44 @@ theorem mirror_indexRec {c : Conv} (hm : Mirror c) (new : List Record) (r : Reco
       rw [ownerU_of_mem hu hr hk]; rfl
     · simp only [hk, if_false]
       rw [hm.tr, hU k hk]
+  · intro p
+    show Dict.get (match r.truePattern with
+      | some q => if Dict.has c.patMap r.pfx then c.patMap else Dict.set c.patMap r.pfx q
+      | none => c.patMap) p = patternOf new p
+    have hold : Dict.get c.patMap r.pfx = (c.records.find? (fun y => y.pfx == r.pfx)).bind Record.truePattern := hm.pat r.pfx
+    by_cases hp : p = r.pfx
+    · subst hp
+      have hnew : patternOf new r.pfx = r.truePattern := by
+        unfold patternOf; rw [find?_pfx_of_mem hu hr]; rfl
+      rw [hnew]
+      cases ht : r.truePattern with
+      | none =>
+        simp only
+        rw [hold]
+        cases hf : c.records.find? (fun y => y.pfx == r.pfx) with
+        | none => rfl
+        | some x => simp only [Option.bind_some]; rw [hO x hf, ht]
+      | some q =>
+        simp only
+        by_cases hh : Dict.has c.patMap r.pfx = true
+        · rw [if_pos hh]
+          rw [Dict.has_eq, hold] at hh
+          rw [hold]
+          cases hf : c.records.find? (fun y => y.pfx == r.pfx) with
+          | none => simp [hf] at hh
+          | some x => simp only [Option.bind_some]; rw [hO x hf, ht]
+        · rw [if_neg hh, Dict.get_set]; simp
+    · have hget : Dict.get (match r.truePattern with
+          | some q => if Dict.has c.patMap r.pfx then c.patMap else Dict.set c.patMap r.pfx q
+          | none => c.patMap) p = Dict.get c.patMap p := by
+        cases r.truePattern with
+        | none => rfl
+        | some q =>
+          simp only
+          split
+          · rfl
+          · rw [Dict.get_set]; simp [Ne.symm hp]
+      rw [hget, hm.pat, hQ p hp]
 
 /-! ### appending a record that matches nothing -/
 
@@ -273,7 +330,18 @@ theorem wf_append {c : Conv} (h : WF c) (r : Record) (hr : RecOK r)
     have : b = r := by simpa using hb
     subst this
     exact ⟨(hd a ha).1.symm, (hd a ha).2.symm⟩
-  refine ⟨hu, ?_, mirror_indexRec h.mirror _ r hu (by simp) ?_ ?_⟩
+  refine ⟨hu, ?_, mirror_indexRec h.mirror _ r hu (by simp) ?_ ?_ ?_ ?_⟩
+  rotate_left 3
+  · intro p hp
+    unfold patternOf
+    rw [List.find?_append]
+    have : List.find? (fun x : Record => x.pfx == p) [r] = none := by
+      simp [List.find?_cons, Ne.symm hp]
+    rw [this]; simp
+  · intro x hx
+    have hxm := List.mem_of_find?_eq_some hx
+    have hxp : x.pfx = r.pfx := by simpa using List.find?_some hx
+    exact absurd (by rw [← hxp]; simp [Record.allP]) ((hd x hxm).1 r.pfx (by simp [Record.allP]))
   · intro x hx
     rcases List.mem_append.mp hx with hx | hx
     · exact h.recOK x hx
@@ -354,7 +422,22 @@ theorem wf_merge {c : Conv} (h : WF c) (r : Record) (j : Nat) (hj : j < c.record
   have hmem : merged ∈ c.records.set j merged := by
     rw [List.mem_iff_getElem]
     exact ⟨j, by simpa using hj, by simp⟩
-  refine ⟨hu, ?_, mirror_indexRec h.mirror _ merged hu hmem ?_ ?_⟩
+  refine ⟨hu, ?_, mirror_indexRec h.mirror _ merged hu hmem ?_ ?_ ?_ ?_⟩
+  rotate_left 3
+  · intro p _
+    apply patternOf_congr
+    rw [List.map_set]
+    show (c.records.map fun r => (r.pfx, r.truePattern)).set j (existing.pfx, existing.truePattern) = _
+    have : (c.records.map fun r => (r.pfx, r.truePattern))[j]'(by simpa using hj) = (existing.pfx, existing.truePattern) := by
+      simp [existing]
+    rw [← this, List.set_getElem_self]
+  · intro x hx
+    have : c.records.find? (fun y => y.pfx == existing.pfx) = some existing :=
+      find?_pfx_of_mem h.unique (List.getElem_mem hj)
+    have hx' : c.records.find? (fun y => y.pfx == existing.pfx) = some x := hx
+    rw [this] at hx'
+    cases hx'
+    rfl
   · intro x hx
     rcases List.mem_or_eq_of_mem_set hx with hx | hx
     · exact h.recOK x hx
